@@ -15,10 +15,11 @@ import (
 // Tasks are real goroutines of which exactly one holds the baton. The holder
 // reaches a yield point whenever ice calls back into harness code (storage
 // read/write, visitor callback, document iterator callback) and between two
-// operations of its program. At a yield point the next element of the
-// schedule decides: 0 = keep running, k>0 = hand the baton to
-// runnable[(k-1) mod len(runnable)]. When the schedule is exhausted the holder
-// runs to completion and the others follow in id order.
+// operations of its program. The schedule is a list of small integers; an
+// element k means "let k/5 further yield points pass, then hand the baton to
+// runnable[(k%5)-1]" (k%5 == 0: keep running). When the schedule is exhausted
+// the holder runs to completion and the others follow in id order, so the
+// all-zero schedule is the sequential execution.
 //
 // All scheduler state is touched only by the baton holder, i.e. strictly
 // serially, but through a baton the race detector cannot see (see
@@ -47,6 +48,7 @@ type Sched struct {
 	batons   [maxTasks]baton
 	plan     []int
 	pos      int
+	gap      int      // yield points already passed while waiting for plan[pos]
 	mutexes  []*int32 // state words of every segment mutex in the world
 	Switches int
 	Yields   int
@@ -121,7 +123,10 @@ func (s *Sched) Release() {
 	}
 }
 
-// pick consumes one schedule element and returns the task to switch to, or -1.
+// pick consumes (at most) one schedule element and returns the task to switch
+// to, or -1. An element k encodes "let k/5 further yield points pass, then
+// switch to runnable[(k%5)-1]" (k%5 == 0: no switch). At a task's end the gap
+// is ignored: somebody has to run.
 //
 //go:norace
 func (s *Sched) pick(mustSwitch bool) int {
@@ -139,18 +144,24 @@ func (s *Sched) pick(mustSwitch bool) int {
 	k := 0
 	if s.pos < len(s.plan) {
 		k = s.plan[s.pos]
-		s.pos++
 		if k < 0 {
 			k = -k
 		}
+		if !mustSwitch && s.gap < k/5 {
+			s.gap++
+			return -1
+		}
+		s.gap = 0
+		s.pos++
 	}
-	if k == 0 {
+	to := k % 5
+	if to == 0 {
 		if mustSwitch {
 			return runnable[0]
 		}
 		return -1
 	}
-	return runnable[(k-1)%nr]
+	return runnable[(to-1)%nr]
 }
 
 // Yield is a scheduling point. kind/arg describe the seam event.
